@@ -366,7 +366,8 @@ def build_fn(gen, d):
     item_id = len(gen.items)
     name = d.sel.replace(' ', '')
     tags = ','.join(opts.get('tags', [])).split(',') if opts.get('tags') else []
-    trusted = 'trusted' in opts
+    trusted = 'trusted' in opts or 'by_cases' in opts
+    emit_name = opts['as'][0] if 'as' in opts else None
     kw_line_start = src.rfind('\n', 0, it.kw) + 1
     # drop attributes/doc (X2): everything between it.start and the keyword line
     attr_text = src[it.start:kw_line_start]
@@ -382,6 +383,12 @@ def build_fn(gen, d):
     sig = re.sub(r'([(,]\s*)_\s*:', _name_param, sig)
     if cnt[0]:
         gen.drops['R2_unnamed_params'] = gen.drops.get('R2_unnamed_params', 0) + cnt[0]
+    if emit_name:
+        # CS: a case copy of the function under another name (the body, recursive calls included, is unchanged)
+        sig, nsub = re.subn(r'\bfn\s+%s\b' % re.escape(name.split('::')[-1].split('>')[-1]), 'fn ' + emit_name, sig, count=1)
+        if nsub != 1:
+            raise LostAnchor('%s: cannot rename to %s' % (name, emit_name))
+        name = emit_name
     if 'ret' in opts:
         sig = name_return(sig, opts['ret'][0])
         gen.drops['R1_ret_named'] += 1
@@ -489,11 +496,18 @@ def build_fn(gen, d):
                         dm -= 1
                     elif ch == ';' and dm == 1:
                         pos = ci + 1
-                # ... or after a loop statement that directly precedes the tail expression
-                for (lkw, lp, lo, lc) in loops:
-                    if lc + 1 > pos and body_masked[:lp].count('{') - body_masked[:lp].count('}') == 1 \
-                            and body_masked[:lp].count('(') == body_masked[:lp].count(')'):
-                        pos = lc + 1
+                # ... or after a block-like statement (`match .. {}`, `if .. {}`, a loop) that directly precedes the tail expression:
+                # a `}` that closes back to the body level and is followed by the start of another expression
+                dm = 0
+                for ci, ch in enumerate(body_masked):
+                    if ch in '{([':
+                        dm += 1
+                    elif ch in '})]':
+                        dm -= 1
+                        if ch == '}' and dm == 1 and ci + 1 > pos:
+                            rest = body_masked[ci + 1:].lstrip()
+                            if rest and rest[0] not in '}.?;,)=+-*/|&<>' and not rest.startswith('else'):
+                                pos = ci + 1
             elif re.match(r'loop(\d+)-before$', anchor):
                 pos = loops[int(re.match(r'loop(\d+)', anchor).group(1))][1]
                 inserts.append((pos, None, 'proof', b.lines, 2))
@@ -557,8 +571,22 @@ def build_fn(gen, d):
     if trusted:
         gen.emit('#[verifier::external_body]', item_id)
     gen.emit(sig, item_id)
+    if 'case_requires' in opts:
+        # the case assumption goes first in the contract of a case copy
+        cl = list(contract_lines)
+        extra = '        %s, // (case assumption)' % opts['case_requires'][0].replace('~', ' ')
+        idx = next((i for i, l in enumerate(cl) if re.match(r'\s*requires\b', l)), None)
+        if idx is None:
+            cl = ['    requires', extra] + cl
+        else:
+            cl = cl[:idx + 1] + [extra] + cl[idx + 1:]
+        contract_lines = cl
     gen.emit_contract(contract_lines, item_id, 'contract')
-    if trusted:
+    if 'by_cases' in opts:
+        gen.emit('{ unimplemented!() } // CS: contract established by the case copies %s__case_* (same body, one case assumption each)' % name, item_id)
+        gen.drops['CS_case_split_functions'] = gen.drops.get('CS_case_split_functions', 0) + 1
+        rec['by_cases'] = True
+    elif trusted:
         gen.emit('{ unimplemented!() } // X3: body of %s (%d lines) dropped, contract above is ASSUMED' % (name, body.count('\n') + 1), item_id)
         gen.drops['X3_bodies_dropped'] += 1
     else:
@@ -843,7 +871,31 @@ def generate(unit_dir):
             gen.emit('\n'.join(payload), None)
         else:
             d = payload
-            if d.kind == 'fn':
+            if d.kind == 'fn' and 'cases' in d.opts:
+                # CS (case split): `cases=PARAM:V1|V2|..` verifies one copy of the function per variant Vk of *PARAM (extra precondition
+                # `*PARAM is Vk`, name <fn>__case_Vk) and emits the function itself without body, its contract being the conjunction
+                # of what the copies prove; a generated lemma shows the cases are exhaustive.
+                import copy
+                param, variants = d.opts['cases'][0].split(':', 1)
+                variants = variants.split('|')
+                base = d.sel.replace(' ', '').split('::')[-1].split('>')[-1]
+                for v in variants:
+                    dc = copy.deepcopy(d)
+                    dc.opts = {k: v2 for k, v2 in d.opts.items() if k != 'cases'}
+                    dc.opts['as'] = ['%s__case_%s' % (base, v)]
+                    dc.opts['case_requires'] = ['*%s~is~%s' % (param, v)]
+                    build_fn(gen, dc)
+                d0 = copy.deepcopy(d)
+                d0.opts = {k: v2 for k, v2 in d.opts.items() if k != 'cases'}
+                d0.opts['by_cases'] = [True]
+                d0.blocks = [b for b in d.blocks if b.kind == 'contract']
+                build_fn(gen, d0)
+                gen.emit('// CS: the case assumptions of %s__case_* cover every value of the parameter' % base, None)
+                gen.emit('proof fn %s__cases_exhaustive(%s: %s)' % (base, param, d.opts['cases_type'][0].replace('~', ' ')), None)
+                gen.emit('    ensures %s,' % ' || '.join('%s is %s' % (param, v) for v in variants), None)
+                gen.emit('{}', None)
+                gen.emit('', None)
+            elif d.kind == 'fn':
                 build_fn(gen, d)
             elif d.kind == 'type':
                 build_type(gen, d)
